@@ -687,7 +687,10 @@ func processBuilder(ctx TaggedStructContext, genMethod fp.Set[string]) fp.Set[st
 
 	if _, ok := ts.Tags.Get("@fp.Builder").Unapply(); ok {
 
-		genMethod = genBuilder(ctx, genMethod)
+		// @fp.Value generates the builder already ; generating it again declares everything twice
+		if ts.Tags.Get("@fp.Value").IsEmpty() {
+			genMethod = genBuilder(ctx, genMethod)
+		}
 	}
 
 	return genMethod
